@@ -216,10 +216,11 @@ func (f *Frame) callStatic(callee *ssa.Function, args []Val, reach string, h *He
 			ctx.locals = true
 			ctx.callArgs = args
 			name := f.vc.siteName("atcall." + clauseName(cl, 0) + "@" + callee.Name())
-			goal := ctx.evalBool(cl.E)
+			goal, why := f.vc.checkedGoal(ctx, cl.E)
+			cl.Src += why
 			// after a wide control-flow join (a switch): one obligation per incoming path
 			var paths []string
-			if f.depth == 0 && f.vc.curBlk >= 0 && f.vc.curBlk < len(f.fn.Blocks) && goal != "true" {
+			if f.depth == 0 && f.vc.curBlk >= 0 && f.vc.curBlk < len(f.fn.Blocks) && goal != "true" && why == "" {
 				paths = f.splitConds(f.fn.Blocks[f.vc.curBlk])
 			}
 			if len(paths) > 8 {
